@@ -97,7 +97,7 @@ var ruleRuneErr = &Rule{
 
 var ruleNarrow = &Rule{
 	Name: "R-NARROW", NeedSSA: true,
-	Doc: "in packages parser and ast no character (a value of type rune, or an int derived from one) is converted to an 8-bit integer unless the branch facts bound it below 256 (a dominating test ch < utf8.RuneSelf, ch < 256, ch <= 0xff or an equality with an ASCII constant): otherwise characters that agree in their low eight bits are classified alike",
+	Doc: "in packages parser and ast no character (a value of type rune, or an int derived from one) is converted to an 8-bit integer unless the branch facts bound it below 256 (a dominating test ch < utf8.RuneSelf, ch < 256, ch <= 0xff or an equality with an ASCII constant): otherwise characters that agree in their low eight bits are classified alike (or the range of the converted expression, evaluated from the exact value ranges of the pure character functions in it, lies below the limit); and the lexer never shifts, multiplies or adds in an 8- or 16-bit type unless the result is bounded below that type's limit (a code point put together digit by digit)",
 	Run: func(p *Prog) *RuleOut {
 		out := newOut("R-NARROW")
 		n, nrune := 0, 0
@@ -110,6 +110,26 @@ var ruleNarrow = &Rule{
 			ord := 0
 			for _, b := range fn.Blocks {
 				for _, ins := range b.Instrs {
+					// shifting, multiplying or adding in an 8- or 16-bit type: a
+					// code point accumulated digit by digit (`cu = cu<<4 |
+					// uint16(d)` over up to six digits) loses what does not fit,
+					// unless the value is known to stay below the type's limit
+					if bo, ok := ins.(*ssa.BinOp); ok && fnPkgPath(fn) == pkgParser && (bo.Op == token.SHL || bo.Op == token.MUL || bo.Op == token.ADD) {
+						if bt, ok := bo.Type().Underlying().(*types.Basic); ok && (bt.Kind() == types.Uint8 || bt.Kind() == types.Int8 || bt.Kind() == types.Uint16 || bt.Kind() == types.Int16) {
+							if _, isK := constInt(bo); !isK {
+								n++
+								lim := int64(256)
+								if bt.Kind() == types.Uint16 || bt.Kind() == types.Int16 {
+									lim = 65536
+								}
+								if iv, ok := p.narrowRange(bo, b, nil, 0); !ok || iv.lo < 0 || iv.hi >= lim {
+									ord++
+									out.viol(fmt.Sprintf("%s: character narrowed to a byte #%d", fnName(fn), ord), p.pos(bo.Pos()), fnName(fn), "a value is shifted, multiplied or added up in the type "+bt.Name()+" and nothing bounds the result below its limit: a code point put together digit by digit loses its high bits, so `\\u{1F600}` denotes another character")
+								}
+								continue
+							}
+						}
+					}
 					// a rune masked down to a byte or a 16-bit unit
 					if bo, ok := ins.(*ssa.BinOp); ok && bo.Op == token.AND {
 						if bt, ok := bo.Type().Underlying().(*types.Basic); ok && bt.Kind() == types.Int32 {
